@@ -13,6 +13,15 @@ def run(tier, seed):
     if r.violation:
         ck.violation("model:MC_VSS", "VSS.tla violates the property: %s" % r.violation, replay_path=os.path.join(vlib.OUT, "tlc", "VSS-MC_VSS.cfg.log"))
     dkg_common.run_trigger(ck, PID)
+    D = dkg_common.directed
+    # scripted deviations every run repeats: a party that is honest until the share refresh and then deals a "zero" sharing with a
+    # non-zero constant term (consistent with its commitments); reconstruction from four and more points (t = 3: n = 7)
+    dirs = [D("dss", 4, 1, [0, 6, 0, 0], 31), D("dss", 4, 1, [6, 0, 0, 0], 32), D("dss", 5, 2, [0, 0, 6, 0, 0], 33), D("dss", 5, 1, [0, 0, 0, 0, 6], 34),
+            D("dkg", 7, 3, [1, 0, 0, 0, 0, 0, 0], 35), D("dkg", 7, 3, [0, 0, 0, 1, 0, 0, 0], 36), D("dkg", 7, 3, [0, 0, 0, 0, 0, 0, 1], 37), D("dkg", 7, 2, [0, 1, 0, 0, 0, 1, 0], 38)]
+    if not q:
+        dirs += [D("dss", n, t, [6 if k == w else 0 for k in range(n)], 40 + 7 * n + w) for n, t in ((6, 2), (7, 3), (7, 2)) for w in range(n)]
+        dirs += [D("dkg", 7, 3, [1 if k == w else 0 for k in range(7)], 100 + w + 10 * sd) for w in range(7) for sd in range(4)]
+    dkg_common.run_directed(ck, PID, dirs)
     dkg_common.run_proto(ck, PID, "dkg", 48 if q else 1200, seed, 5 if q else 7)
     dkg_common.run_proto(ck, PID, "vss", 64 if q else 1600, seed, 5 if q else 7)
     dkg_common.run_proto(ck, PID, "dss", 16 if q else 400, seed, 4 if q else 6)
